@@ -1,5 +1,5 @@
 // C14 (resample_pixels on run-time typed views) — every ordered pair of alternatives x every source shape x
-// destination shapes x 5 affine maps x {nearest_neighbor_sampler, bilinear_sampler} x the six call forms of
+// destination shapes x {5 affine maps, resize_view, resample_subimage} x {nearest_neighbor, bilinear} x the six call forms of
 // c14_algo.hpp, against the concrete resample_pixels on twin images: compatible -> identical destination;
 // incompatible -> std::bad_cast and a byte-identical destination.  (What a sampler computes is C17's subject;
 // here only "same as the concrete call".)
@@ -14,13 +14,24 @@ namespace {
 struct Map { const char* name; double a, b, c, d, e, f; };
 static const Map MAPS[] = {
     {"id", 1, 0, 0, 1, 0, 0},           {"shift", 1, 0, 0, 1, 1, -1},       {"down2", 2, 0, 0, 2, 0, 0},
-    {"up2", 0.5, 0, 0, 0.5, 0.25, 0.25}, {"swapxy", 0, 1, 1, 0, 0, 0}};
+    {"up2", 0.5, 0, 0, 0.5, 0.25, 0.25}, {"swapxy", 0, 1, 1, 0, 0, 0},
+    {"resize_view", 0, 0, 0, 0, 0, 0},   {"resample_subimage", 0, 0, 0, 0, 0, 0}};   // the last two: wrapper calls (kind 1, 2)
 
+// kind 0: resample_pixels(src, dst, m, sampler); kind 1: resize_view(src, dst, sampler); kind 2: resample_subimage(src,
+// dst, 0, 0, src.width(), src.height(), 0.5 rad, sampler) — the two wrappers take variants as "meta views" and read
+// dst.width()/height() and src.width()/height() through the variant before forwarding to resample_pixels
 template <class Sampler> struct ResampleAlg
 {
     static constexpr bool always = false, readonly = false;
+    int kind;
     gil::matrix3x2<double> m;
-    template <class S, class D> long operator()(S const& s, D const& d) const { gil::resample_pixels(s, d, m, Sampler()); return 0; }
+    template <class S, class D> long operator()(S const& s, D const& d) const
+    {
+        if (kind == 0) gil::resample_pixels(s, d, m, Sampler());
+        else if (kind == 1) gil::resize_view(s, d, Sampler());
+        else gil::resample_subimage(s, d, 0.0, 0.0, double(s.width()), double(s.height()), 0.5, Sampler());
+        return 0;
+    }
     template <class S, class D, class T> void prepare(S const&, D const&, int, T) const {}
 };
 
@@ -34,7 +45,9 @@ template <class Sampler> struct PairLoop
         st.unit_fails = 0;
         for (Map const& mp_ : MAPS)
         {
-            ResampleAlg<Sampler> alg{gil::matrix3x2<double>(mp_.a, mp_.b, mp_.c, mp_.d, mp_.e, mp_.f)};
+            const int kind = std::string(mp_.name) == "resize_view" ? 1 : std::string(mp_.name) == "resample_subimage" ? 2 : 0;
+            ResampleAlg<Sampler> alg{kind, gil::matrix3x2<double>(mp_.a, mp_.b, mp_.c, mp_.d, mp_.e, mp_.f)};
+            ++st.ctx.witness[kind == 0 ? "resample_pixels_maps" : kind == 1 ? "resize_view_run" : "resample_subimage_run"];
             st.alg = std::string("resample_pixels<") + sname + ">/" + mp_.name;
             for (int sh = 0; sh <= S; ++sh) for (int sw = 0; sw <= S; ++sw)
                 for (int dh = 0; dh <= S; ++dh) for (int dw = 0; dw <= S; ++dw)
@@ -47,7 +60,7 @@ template <class Sampler> struct PairLoop
         }
         ++st.ctx.witness[compat(i, j) ? "pairs_compatible" : "pairs_incompatible"];
         st.ctx.sample(vh::S() << "resample_pixels<" << sname << "> " << INFO[i].name << ">" << INFO[j].name << ": "
-                              << (compat(i, j) ? "equals the concrete call" : "std::bad_cast, destination unchanged") << ", 5 maps x shapes 0.." << S << " x 6 call forms");
+                              << (compat(i, j) ? "equals the concrete call" : "std::bad_cast, destination unchanged") << ", 5 maps + resize_view + resample_subimage x shapes 0.." << S << " x 6 call forms");
     }
 };
 
